@@ -3,6 +3,7 @@ package main
 import (
 	"verifharness/core"
 	_ "verifharness/sut/containers"
+	_ "verifharness/sut/containers2"
 )
 
 func main() { core.Main() }
